@@ -196,6 +196,9 @@ theorem enc_pos : ∀ (t : Ty) (v : Val) (bs : Bytes), t.pos = true → enc t v 
     cases v <;> simp only [enc] at h <;> (try (cases h; done))
     exact encFields_pos fs _ _ _ _ bs (by simpa [Ty.pos] using hp) h
   | .bad, v, bs, hp, h => by simp [Ty.pos] at hp
+  | .ro t, v, bs, hp, h => by
+    simp only [enc] at h
+    exact enc_pos t v bs (by simpa [Ty.pos] using hp) h
 theorem encFields_pos : ∀ (fs : Fields) (env : Env) (men tak : List String) (vs : List Val) (bs : Bytes),
     fs.pos = true → encFields env men tak fs vs = .ok bs → 0 < bs.length
   | .nil, _, _, _, _, _, hp, _ => by simp [Fields.pos] at hp
@@ -281,6 +284,7 @@ theorem dec_enc : ∀ (t : Ty) (v : Val) (bs r : Bytes), t.wf = true → enc t v
     cases v <;> simp only [enc] at h <;> (try (cases h; done))
     simp [dec, decFields_encFields fs _ _ _ _ bs r (by simpa [Ty.wf] using hw) h]
   | .bad, v, bs, r, hw, h => by simp [Ty.wf] at hw
+  | .ro t, v, bs, r, hw, h => by simp [Ty.wf] at hw
 theorem decFields_encFields : ∀ (fs : Fields) (env : Env) (men tak : List String) (vs : List Val) (bs r : Bytes),
     fs.wf = true → encFields env men tak fs vs = .ok bs → decFields env men tak fs (bs ++ r) = .ok (vs, r)
   | .nil, env, men, tak, vs, bs, r, _, h => by
@@ -356,6 +360,7 @@ theorem dec_ne_absent (t : Ty) (bs rest : Bytes) (v : Val) (h : dec t bs = .ok (
     · split at h <;> cases h
   · split at h <;> cases h
   · cases h
+  · cases h
 
 mutual
 theorem enc_dec : ∀ (t : Ty) (bs rest : Bytes) (v : Val), dec t bs = .ok (v, rest) →
@@ -418,6 +423,7 @@ theorem enc_dec : ∀ (t : Ty) (bs rest : Bytes) (v : Val), dec t bs = .ok (v, r
     obtain ⟨u, h1, h2⟩ := encFields_decFields fs _ _ _ bs _ vs hv
     exact ⟨u, h1, by simp [enc, h2]⟩
   | .bad, bs, rest, v, h => by simp [dec] at h
+  | .ro t, bs, rest, v, h => by simp [dec] at h
 theorem encFields_decFields : ∀ (fs : Fields) (env : Env) (men tak : List String) (bs rest : Bytes) (vs : List Val),
     decFields env men tak fs bs = .ok (vs, rest) → ∃ u, bs = u ++ rest ∧ encFields env men tak fs vs = .ok u
   | .nil, env, men, tak, bs, rest, vs, h => by
@@ -524,6 +530,7 @@ theorem dec_ne_outOfFuel : ∀ (t : Ty) (bs : Bytes), dec t bs ≠ .error .outOf
     · rename_i e he; intro h; cases h; exact decFields_ne_outOfFuel fs _ _ _ bs he
     · intro h; cases h
   | .bad, bs => by simp [dec]
+  | .ro t, bs => by simp [dec]
 theorem decFields_ne_outOfFuel : ∀ (fs : Fields) (env : Env) (men tak : List String) (bs : Bytes),
     decFields env men tak fs bs ≠ .error .outOfFuel
   | .nil, env, men, tak, bs => by simp only [decFields]; split <;> (intro h; cases h)
@@ -605,6 +612,7 @@ theorem dec_ne_noProgress : ∀ (t : Ty) (bs : Bytes), t.wf = true → dec t bs 
     · rename_i e he; intro h; cases h; exact decFields_ne_noProgress fs _ _ _ bs (by simpa [Ty.wf] using hw) he
     · intro h; cases h
   | .bad, bs, _ => by simp [dec]
+  | .ro t, bs, _ => by simp [dec]
 theorem decFields_ne_noProgress : ∀ (fs : Fields) (env : Env) (men tak : List String) (bs : Bytes),
     fs.wf = true → decFields env men tak fs bs ≠ .error .noProgress
   | .nil, env, men, tak, bs, _ => by simp only [decFields]; split <;> (intro h; cases h)
@@ -744,6 +752,7 @@ theorem dec_alloc : ∀ (t : Ty) (bs rest : Bytes) (v : Val), dec t bs = .ok (v,
     have := decFields_alloc fs _ _ _ bs _ vs hv
     simpa [AllocOK, Val.payload, Val.cells] using this
   | .bad, bs, rest, v, h => by simp [dec] at h
+  | .ro t, bs, rest, v, h => by simp [dec] at h
 theorem decFields_alloc : ∀ (fs : Fields) (env : Env) (men tak : List String) (bs rest : Bytes) (vs : List Val),
     decFields env men tak fs bs = .ok (vs, rest) →
       rest.length ≤ bs.length ∧ Val.payloadL vs + rest.length ≤ bs.length ∧
